@@ -9,7 +9,7 @@ COMMON_TRUSTED = [
     "tie: hand-written models checked against the implementation by the correspondence run (Rust facade src/verif/*, harness/, ocaml/driver/*.ml, lib/*.py are trusted for the tie only)",
 ]
 
-HOOK_COMMITS = ["fba652c", "fbea427", "92cbd45", "b453712"]
+HOOK_COMMITS = ["fba652c", "fbea427", "92cbd45", "b453712", "864e116", "2281b05"]
 
 PROPS, META = {}, {}
 for f in sorted(glob.glob(os.path.join(os.path.dirname(__file__), "C[0-9]*.py"))):
